@@ -157,7 +157,11 @@ def retainedFail1 (o : Obs) (ob : Obl) : Option String :=
   match ob.item o.view with
   | some i => if i.pending then none else some "retained-not-pending"
   | none =>
-    if ob.strict && (o.view.get ob.b.key).isSome then some "retained-lost-same-id-submit"
+    -- another bundle sits under the ID of a submitted one, or another submission with that ID has just
+    -- taken the stored copy with it
+    if ob.strict && ((o.view.get ob.b.key).isSome ||
+        (match o.ev with | .submit b' => b'.key == ob.b.key && b'.tag != ob.b.tag | _ => false))
+    then some "retained-lost-same-id-submit"
     else if ob.b.ts == 0 && isCleanTick o.ev then some "retained-lost-zero-time-clean"
     else some "retained-lost"
 
